@@ -133,6 +133,7 @@ def run(facts, rep, tier):
     e4_ok, e4_why = common.quiescent_restart_write(facts, tpa.res)
     tp1 = [r for k in ('TP.1', 'TP.2') for r in tpa.res.get(k, [])]
     e7_ok = bool(tp1) and all(r[0] is True for r in tp1)
+    if not e7_ok and not any(r[0] is False for r in tp1): e7_ok = None          # the premise is neither proved nor refuted
     rep.note(f'E7 (a task removed from the queue under m_queueMutex is owned by the worker that removed it) applicable: {e7_ok} — TP.1/TP.2: {len(tp1)} obligations')
     e5_ok, e5_why = common.pooled_thread_confined(facts)
     rep.check(True, 'DR.1', 'exemption E4 evaluated: ' + e4_why, 'src/threading/ThreadPool.cpp', '', nontrivial=True) if False else None
@@ -151,20 +152,22 @@ def run(facts, rep, tier):
         # fresh object not yet shared: `new X` held in a local of the creating function
         for x in (a, b):
             if x.path and x.path[0] == 'new': return 'E3 (object created by this thread, accessed before it is handed to the new thread)'
-        if (cls, fld) == ('tulz::ThreadPool', 'm_isRunning') and e4_ok:
+        if (cls, fld) == ('tulz::ThreadPool', 'm_isRunning') and e4_ok is not False:
             for x, y in ((a, b), (b, a)):
-                if x.mode == 'W' and x.root[0] == 'owner' and common.is_quiescent_true_write(x.node, facts): return 'E4 (restart write while no worker exists)'
+                if x.mode == 'W' and x.root[0] == 'owner' and common.is_quiescent_true_write(x.node, facts):
+                    return 'E4 (restart write while no worker exists)' if e4_ok else 'UNDECIDED E4: ' + e4_why
         # E6: the task object a thread body received by copy-captured pointer and deletes itself is owned by that thread
         for x in (a, b):
             if x.root[0] == 'worker' and len(x.path) == 3 and x.path[0] == 'cap' and common.thread_body_deletes(facts, x.root[1], x.path[1], x.chain):
                 if a.root == b.root and a.path[:2] == b.path[:2]: return 'E6 (task object owned by the thread that runs and deletes it)'
-        if e7_ok and a.root[0] == 'worker' and b.root[0] == 'worker' and all(any(x.path[i:i + 2] == ('m_queue', '*') for i in range(len(x.path) - 1)) for x in (a, b)):
-            return 'E7 (task removed from the queue under m_queueMutex: owned by the worker that removed it)'
+        if e7_ok is not False and a.root[0] == 'worker' and b.root[0] == 'worker' and all(any(x.path[i:i + 2] == ('m_queue', '*') for i in range(len(x.path) - 1)) for x in (a, b)):
+            return 'E7 (task removed from the queue under m_queueMutex: owned by the worker that removed it)' if e7_ok else 'UNDECIDED E7: the worker\'s take -> run -> delete discipline (TP.1 / TP.2) is not decided on this tree'
         if (cls, fld) == ('tulz::PooledThread', 'm_lastActiveTime') and e5_ok and a.root[0] == 'worker' and b.root[0] == 'worker':
             return 'E5 (each worker only reaches its own PooledThread)'
         return None
 
     n_pairs = 0
+    undecided = {}
     for (cls, fld), accs in sorted(byfield.items()):
         is_atomic = any(x.atomic for x in accs)
         conflicts = {}
@@ -183,13 +186,18 @@ def run(facts, rep, tier):
                         if lock_key(ta) == lock_key(tb) and not compatible(ta[2], tb[2]): common_lock = True
                 if common_lock: continue
                 why = exempt(a, b, cls, fld)
+                if why and why.startswith('UNDECIDED'):
+                    undecided.setdefault((cls, fld), (a, b, why)); continue
                 if why: ex_used[why] += 1; continue
                 w, o = (a, b) if a.mode == 'W' else (b, a)
                 key = f'RACE|{strip_targs(cls)}::{fld}|{common.finding_fn(w)}|{strip_targs(w.root[1])}'
                 if key not in conflicts:
                     conflicts[key] = (w, o, pa if w is a else pb, pb if w is a else pa)
         inst = f'{cls}::{fld} ({len(accs)} accesses' + (', atomic' if is_atomic else '') + ''.join(f', {v}x {k}' for k, v in ex_used.items()) + ')'
-        if not conflicts:
+        if (cls, fld) in undecided and not conflicts:
+            a_, b_, why_ = undecided[(cls, fld)]
+            rep.inconclusive('DR.1', inst, (a_ if a_.mode == 'W' else b_).site, f'conflicting accesses that are ordered only by a happens-before fact whose premise is not decided here — {why_[10:]}')
+        elif not conflicts:
             rep.ok('DR.1', inst, accs[0].site)
         for key, (w, o, pw, po) in conflicts.items():
             def fmt(x, p):
